@@ -1047,3 +1047,9 @@ V("c04-chunks-override-not-grid-sensitive", "C04", "R04.12", "dask_array/_expr.p
   "    def _requires_grid_preservation(self, dependency):\n        # ``_chunks`` re-labels the input's blocks one to one\n        return True\n\n", "", expect="ChunksOverride")
 V("c04-reshape-lowered-not-grid-sensitive", "C04", "R04.12", "dask_array/manipulation/_reshape.py",
   "    def _requires_grid_preservation(self, dependency):\n        # ``_outchunks`` was derived block for block from the input's grid\n        return True\n\n", "", expect="ReshapeLowered")
+V("c03-default-grid-answer-ignores-unknown-chunks", "C03", "R03.12", "dask_array/_expr.py",
+  "        try:\n            return any(c != c for dim in self.chunks for c in dim)\n        except (NotImplementedError, TypeError, ValueError):\n            return False\n", "        return False\n", expect="_requires_grid_preservation")
+V("c03-bool-index-flattened-answers-false", "C03", "R03.12", "dask_array/slicing/_bool_index.py",
+  "class BooleanIndexFlattened(ArrayExpr):", "class BooleanIndexFlattened(ArrayExpr):\n    def _requires_grid_preservation(self, dependency):\n        return False\n", expect="BooleanIndexFlattened")
+V("c03-twin-default-grid-answer-isnan", "C03", "-", "dask_array/_expr.py",
+  "            return any(c != c for dim in self.chunks for c in dim)\n", "            return any(math.isnan(c) for dim in self.chunks for c in dim)\n", twin=True)
